@@ -389,6 +389,27 @@ fn emit_item(file: &SrcFile, it: &ItemSpec) -> Emitted {
                     edits.push(Edit { range: ar.clone(), text: format!("#[derive({})]", kept.join(", ")), prio: 0 });
                 }
             }
+            if !it.drop_attrs.is_empty() {
+                // attributes on variants / fields (e.g. thiserror's #[error(..)], #[from])
+                struct AV<'x> {
+                    names: &'x [String],
+                    out: Vec<std::ops::Range<usize>>,
+                }
+                impl<'ast, 'x> syn::visit::Visit<'ast> for AV<'x> {
+                    fn visit_attribute(&mut self, a: &'ast syn::Attribute) {
+                        let n = a.path().segments.last().map(|s| s.ident.to_string()).unwrap_or_default();
+                        if self.names.contains(&n) {
+                            self.out.push(a.span().byte_range());
+                        }
+                    }
+                }
+                let mut av = AV { names: &it.drop_attrs, out: vec![] };
+                syn::visit::Visit::visit_item(&mut av, item);
+                for rr in av.out {
+                    dropped.push(format!("attribute `{}` in {}", norm_ws(&src[rr.clone()]).chars().take(50).collect::<String>(), it.path));
+                    edits.push(Edit { range: rr, text: String::new(), prio: 0 });
+                }
+            }
             // start of the item proper (vis or keyword): first token after attributes
             let after_attrs = attrs.iter().map(|a| a.span().byte_range().end).max().unwrap_or(r.start);
             let body_start = if attrs.is_empty() { r.start } else { after_attrs };
